@@ -58,6 +58,22 @@ var nonASCIICollider = func() string {
 	}
 }()
 
+// adjacent returns a message whose bucket is bucket("a")+d (mod 4096): the
+// per-(level, bucket) budgets of DIFFERENT levels must be independent also when
+// their buckets are neighbours (a counter table indexed by level + hash in one
+// row would couple them).
+func adjacent(d int) string {
+	want := (int(bucket("a")) + d + 4096) % 4096
+	for i := 0; ; i++ {
+		s := "adj" + strconv.Itoa(d) + "-" + strconv.Itoa(i)
+		if int(bucket(s)) == want {
+			return s
+		}
+	}
+}
+
+var adjMinus1, adjPlus1 = adjacent(-1), adjacent(1)
+
 // enabler: Debug is disabled, everything else (also out-of-range values) enabled.
 var enabler = zap.LevelEnablerFunc(func(l zapcore.Level) bool { return l != zapcore.DebugLevel })
 
@@ -77,6 +93,8 @@ func keys() []key {
 		{zapcore.Level(-7), "a"},              // out of range (below), enabled
 		{zapcore.FatalLevel, "a"},             // highest in-range level
 		{zapcore.InfoLevel, nonASCIICollider}, // shares the budget of nonASCII
+		{zapcore.WarnLevel, adjMinus1},        // next level, neighbouring bucket below that of "a": independent of (info, "a")
+		{zapcore.WarnLevel, adjPlus1},         // next level, neighbouring bucket above
 	}
 }
 
@@ -440,7 +458,7 @@ func main() {
 	var cfgs []cfg
 	for n := 0; n <= 3; n++ {
 		for m := 0; m <= 3; m++ {
-			for _, tick := range []time.Duration{1, 10, time.Second} {
+			for _, tick := range []time.Duration{0, 1, 10, time.Second} {
 				cfgs = append(cfgs, cfg{n, m, tick})
 			}
 		}
@@ -526,7 +544,7 @@ func main() {
 		"traces_validated_against_impl": seqs.Load() + sum.Execs,
 		"evaluations":                   seqs.Load() + sum.Execs,
 		"distinct_nontrivial":           len(states) + len(sum.Outcomes),
-		"rule":                          fmt.Sprintf("sequential: every sequence of length <=%d over 9 keys (incl. a non-ASCII message and a non-ASCII collider of it) x 6 timestamp deltas {0,tick-1,tick,tick+1,-1,-(tick+1)} for first,thereafter in 0..3 and tick in {1ns,10ns,1s}, on the parent and alternating parent/With-child, real sampler in lockstep with the reference counters; concurrent: every interleaving of 2-3 threads x 1-2 same-key entries inside / straddling a window; distinct = distinct reference counter states / admitted counts", maxLen),
+		"rule":                          fmt.Sprintf("sequential: every sequence of length <=%d over 11 keys (incl. a non-ASCII message and a non-ASCII collider of it, and next-level messages in the neighbouring buckets) x 6 timestamp deltas {0,tick-1,tick,tick+1,-1,-(tick+1)} for first,thereafter in 0..3 and tick in {0,1ns,10ns,1s}, on the parent and alternating parent/With-child, real sampler in lockstep with the reference counters; concurrent: every interleaving of 2-3 threads x 1-2 same-key entries inside / straddling a window; distinct = distinct reference counter states / admitted counts", maxLen),
 		"samples": []any{
 			map[string]any{"config": "first=1 thereafter=2 tick=10ns", "sequence": "(info,\"a\",dt=0) (info,\"" + collider + "\",dt=9) (info,\"a\",dt=10)"},
 			map[string]any{"concurrent_item": items[0]},
